@@ -1368,7 +1368,7 @@ M("SEED-C07-b", ["C07"], [("@patch", "seeded/C07-b/patch.diff", "")], ["C07/fres
 M("SEED-C08-a", ["C08"], [("@patch", "seeded/C08-a/patch.diff", "")], ["C08/varint/overlong"])
 M("SEED-C08-b", ["C08"], [("@patch", "seeded/C08-b/patch.diff", "")], ["C08/panic/de::packet_reader::PacketReader::<'a>::receive_buffer/call:index_mut#1"])
 M("SEED-C09-a", ["C09"], [("@patch", "seeded/C09-a/patch.diff", "")], ["C09/varint/encoded-len"])
-M("SEED-C09-b", ["C09"], [("@patch", "seeded/C09-b/patch.diff", "")], ["C09/bits/connect/will-flag"])
+M("SEED-C09-b", ["C09"], [("@patch", "seeded/C09-b/patch.diff", "")], ["C09/bits/connect/password-flag"])
 M("SEED-C10-a", ["C10"], [("@patch", "seeded/C10-a/patch.diff", "")], ["C10/due/depends-only-on-keepalive-state"])
 M("SEED-C10-b", ["C10"], [("@patch", "seeded/C10-b/patch.diff", "")], ["C10/const/lead-positive"])
 M("SEED-C11-a", ["C11"], [("@patch", "seeded/C11-a/patch.diff", "")], ["C11/fatal/read_packet/fill_packet_reader#1"])
